@@ -22,7 +22,13 @@ RULE = ("case = (generator type, construction path, jds, sizes, callbacks, motif
         "(some topology's stub count is not a multiple of its motif size; fast / network generator, all construction paths): "
         "every one with one topology under the same bounds, every 5th / 16th (quick; offset drawn from the seed) or 3rd / 4th "
         "(thorough) with two -- the short last group is handed to the callback, so WHICH stubs are left over must be uniform "
-        "as well; six of them in the corpus. LONG STUB LISTS, checker only (no model call, no enumeration): 3 (thorough 12) "
+        "as well; six of them in the corpus. UNUSED TOPOLOGIES: every one-topology column C (N<=3 quick / N<=4 thorough, sum<=4) "
+        "embedded with all-zero columns that are not the last topology ([0,C], [C,0,C], [0,0,C] in rotation, the unused "
+        "topology's size rotating over 1..4), twelve of them in the corpus. COLLECTED ENSEMBLES: every second case of the families (parity drawn from the "
+        "seed) and 17 corpus entries draw the whole ensemble from ONE algorithm object and one jds list (one call per leaf "
+        "of the oracle tree), keep every returned object untouched and tabulate AFTER the last draw from what the kept objects "
+        "hold then (a kept result whose contents changed counts for the placement it shows now, or for none); the same "
+        "c03_check judges that histogram, so results of successive calls that alias each other give a point mass. LONG STUB LISTS, checker only (no model call, no enumeration): 3 (thorough 12) "
         "runs of the fast / network generator on 70000-76000 stubs (motif size 2/3/4; every vertex one stub, or 30-60 hubs; "
         "sometimes a second 12-stub topology before or after) with random.shuffle scripted per topology to [optional "
         "reversal, left rotation by r] (r = a third of the list, half of a power-of-two block +-, 1, random), so that stubs "
@@ -167,10 +173,28 @@ def walk(case):
         return _walk(case, w, path, leaves)
 
 
+def _fingerprint(d):
+    return repr(sorted((k, d[k]) for k in ("nodes", "jds_out", "net_edges", "edges", "names", "ids") if k in d))
+
+
 def _walk(case, w, path, leaves):
+    """case['collect'] (collect-then-tabulate): ONE algorithm object draws the whole ensemble -- one call per leaf of
+    the oracle tree -- the caller keeps every returned object, untouched, and reads them all AFTER the last draw.  The
+    histogram handed to the verified checker is then the one of the RE-OBSERVED results: a kept result that still
+    holds what it held when it was returned counts for its own placement; one whose contents changed counts for the
+    placement whose result it now shows (or for no placement at all)."""
+    collect = bool(case.get("collect"))
+    runner, kept = None, []
+    if collect:
+        runner = G.Runner(case)
+        runner.keep_results = True
     while True:
         w.reset(path)
-        obs = G.run_real(case, w, patched=True)
+        if collect:
+            obs = runner.step(case["jds"], w, True, case.get("rows", "tuple"))
+            kept.append((runner.last_out, _fingerprint(obs)))
+        else:
+            obs = G.run_real(case, w, patched=True)
         if w.depth != len(path):
             raise oracles.OracleProtocol("oracle tree changed shape")
         weight = Fraction(1)
@@ -183,8 +207,23 @@ def _walk(case, w, path, leaves):
         while path and path[-1][0] == path[-1][1] - 1:
             path.pop()
         if not path:
-            return leaves
+            break
         path[-1][0] += 1
+    if collect:
+        by_fp = {}
+        for (obs, _), (_, fp) in zip(leaves, kept):
+            by_fp.setdefault(fp, obs["calls"])
+        for (obs, _), (out, fp) in zip(leaves, kept):
+            try:
+                now = _fingerprint(runner.read_out(out))
+            except Exception:  # noqa: BLE001
+                now = None
+            obs["calls_drawn"] = obs["calls"]
+            if now != fp:
+                obs["changed_later"] = True
+                # the placement whose result the kept object shows now; none: a call no placement contains
+                obs["calls"] = by_fp.get(now, [[G.BAD, [G.BAD]]])
+    return leaves
 
 
 def corpus():
@@ -195,6 +234,15 @@ def corpus():
                     "names": [[1]], "mis": [[0]] if tag == G.MOTIFS else []})
     out.append({"tag": G.FAST, "via": "main", "jds": [[1, 1], [1, 2], [2, 0]], "sizes": [2, 3], "codes": [G.CLIQUE, G.CLIQUE],
                 "names": [[1], [2]], "mis": []})
+    # an all-zero topology column in front of / between used ones (C03-r7-3: `break` at the first empty stub list)
+    for tag, via in ((G.FAST, "direct"), (G.NETWORK, "factory"), (G.MOTIFS, "main")):
+        for jds, sizes in (([[0, 1]] * 4, [2, 2]), ([[0, 1]] * 3, [2, 3]), ([[1, 0, 1]] * 2, [2, 3, 1]), ([[0, 0, 2], [0, 0, 1]], [1, 4, 3])):
+            T = len(sizes)
+            out.append({"tag": tag, "via": via, "jds": jds, "sizes": sizes, "codes": [G.CLIQUE] * T,
+                        "names": [[k + 1] for k in range(T)], "mis": [[k] for k in range(T)] if tag == G.MOTIFS else []})
+    # the same ensembles COLLECTED from one generator object and tabulated after the last draw (C03-r7-1: one result
+    # container per generator object, every kept result shows the last draw)
+    out += [dict(c, collect=True) for c in list(out)]
     out.append({"tag": G.MOTIFS, "via": "factory", "jds": [[1, 2], [1, 0], [2, 0]], "sizes": [2, 1], "codes": [G.STAR],
                 "names": [[1, 2]], "mis": [[0, 1]]})
     # a vertex of degree >= 2 in a topology: some outcomes put two of its stubs into ONE motif (degenerate placement,
@@ -254,6 +302,36 @@ def family(N_max1, N_max2, maxsum, tags_vias, nondiv=None):
                     codes = [G.CLIQUE if sum(sizes[j_] for j_ in idxs) != 2 or tag != G.MOTIFS else G.BARE for idxs in mis]
                     yield {"tag": tag, "via": via, "jds": jds, "sizes": list(sizes), "codes": codes,
                            "names": G.names_for(tag, codes, list(sizes), mis), "mis": mis if tag == G.MOTIFS else []}
+
+
+def zero_column_family(N_max, maxsum, tags_vias):
+    """joint degree sequences with an ALL-ZERO topology column that is NOT the last one (C03-r7-3: the shuffle loop left
+    at the first empty stub list, every later topology stays in vertex order): every one-topology column C of the
+    family embedded as [0, C], [C, 0, C] and [0, 0, C], in rotation; the unused topology's motif size rotates over
+    1..4 (every size divides 0).  The unused topology contributes one (empty) shuffle and no callback call."""
+    i = 0
+    for N in range(1, N_max + 1):
+        for col in G.small_columns(N, maxsum, maxsum):
+            S = sum(col)
+            if S == 0:
+                continue
+            for size in (1, 2, 3, 4):
+                if S % size:
+                    continue
+                i += 1
+                layout = ["ZC", "CZC", "ZZC"][i % 3]
+                if layout == "CZC" and S > 3:
+                    layout = "ZC"                      # keep the tree small (S! ** 2 leaves)
+                zs = 1 + (i // 3) % 4
+                tag, via = tags_vias[i % len(tags_vias)]
+                sizes = [size if ch == "C" else zs for ch in layout]
+                T = len(layout)
+                jds = [[col[v] if ch == "C" else 0 for ch in layout] for v in range(N)]
+                mis = [[k] for k in range(T)]
+                codes = [G.CLIQUE] * T
+                c = {"tag": tag, "via": via, "jds": jds, "sizes": sizes, "codes": codes,
+                     "names": G.names_for(tag, codes, sizes, mis), "mis": mis if tag == G.MOTIFS else []}
+                yield c
 
 
 # ------------------------------------------------------------------ LONG stub lists, checker only (lessons 13, 29)
@@ -368,12 +446,21 @@ def generate(rng, tier):
     # long stub lists first (checker only; three runs in quick, twelve in thorough; one to two seconds each)
     for i in range(3 if tier == "quick" else 12):
         yield big_case(rng, [G.FAST, G.NETWORK, G.FAST, G.FAST][i % 4])
+    yield from _collecting(zero_column_family(3 if tier == "quick" else 4, 4, tv), rng.randrange(2))
     if tier == "quick":
-        yield from family(4, 2, 4, tv, nondiv=(5, rng.randrange(5)))
-        yield from family(0, 3, 3, tv, nondiv=(16, rng.randrange(16)))
+        yield from _collecting(family(4, 2, 4, tv, nondiv=(5, rng.randrange(5))), rng.randrange(2))
+        yield from _collecting(family(0, 3, 3, tv, nondiv=(16, rng.randrange(16))), rng.randrange(2))
     else:
-        yield from family(4, 3, 4, tv, nondiv=(3, rng.randrange(3)))
-        yield from family(5, 4, 3, tv[1:] + tv[:1], nondiv=(4, rng.randrange(4)))
+        yield from _collecting(family(4, 3, 4, tv, nondiv=(3, rng.randrange(3))), rng.randrange(2))
+        yield from _collecting(family(5, 4, 3, tv[1:] + tv[:1], nondiv=(4, rng.randrange(4))), rng.randrange(2))
+
+
+def _collecting(cases, offset):
+    """every second case is an ENSEMBLE COLLECTED FROM ONE GENERATOR OBJECT: all draws first (one call per RNG outcome on
+    the same algorithm object and jds list), every returned object kept, the histogram tabulated afterwards from what
+    the kept objects hold then (results of successive calls must not alias each other: C03-r7-1)"""
+    for k, c in enumerate(cases):
+        yield dict(c, collect=True) if (k + offset) % 2 else c
 
 
 def impl(case):
@@ -390,6 +477,7 @@ def impl(case):
     hist = {}
     proto = None
     n_sh = None
+    changed = sum(1 for obs, _ in leaves if obs.get("changed_later"))
     for obs, w in leaves:
         key = repr(obs["calls"])
         if key not in hist:
@@ -405,7 +493,7 @@ def impl(case):
         g = math.gcd(g, m)
     items = sorted(hist.values(), key=lambda x: repr(x[0]))
     return {"hist": [[c, m // max(g, 1)] for c, m in items], "leaves": len(leaves), "shuffled": n_sh or [],
-            "protocol": proto, "calls": items[0][0] if items else [], "results": []}
+            "protocol": proto, "calls": items[0][0] if items else [], "results": [], "changed_later": changed}
 
 
 def model_calls(case, impl_obs):
@@ -460,6 +548,9 @@ def compare(case, impl_obs, model):
             impl_obs["shuffled"], model["stubs"])
     if impl_obs["leaves"] != model["leaves"]:
         return "oracle tree has %d leaves, sample space has %d schedules" % (impl_obs["leaves"], model["leaves"])
+    if impl_obs.get("changed_later"):
+        return ("%d of %d results kept from earlier calls on the same generator object changed when later ones were drawn"
+                % (impl_obs["changed_later"], impl_obs["leaves"]))
     if impl_obs["hist"] != model["hist"]:
         return "placement histogram differs from the model's"
     return None
@@ -505,6 +596,12 @@ def check_verdict(case, impl_obs, raws):
         return "implementation raised %s on a valid input" % impl_obs[1]
     if v == 1:
         return None
+    if case.get("collect") and impl_obs.get("changed_later"):
+        return ("c03_check rejected the placement histogram of an ensemble COLLECTED from one generator object (one draw per "
+                "RNG outcome, %d draws, every returned object kept and read after the last draw): %d of the kept results no "
+                "longer hold what they held when they were returned, the ensemble shows %d distinct outcomes -- not flat / "
+                "not complete over the arrangements of the stub lists" % (
+                    impl_obs["leaves"], impl_obs["changed_later"], len(impl_obs["hist"])))
     return ("c03_check rejected the placement histogram over all %d RNG outcomes: not flat / not complete over the "
             "arrangements of the stub lists (%d distinct outcomes)" % (impl_obs["leaves"], len(impl_obs["hist"])))
 
@@ -513,7 +610,7 @@ def nontrivial_key(case, impl_obs):
     if "big" in case:
         return [case["tag"], case["big"], case["specs"]] if isinstance(impl_obs, dict) else None
     if isinstance(impl_obs, dict) and len(impl_obs["hist"]) >= 2:
-        return [case["tag"], case["jds"], case["sizes"], case.get("mis")]
+        return [case["tag"], case["jds"], case["sizes"], case.get("mis"), bool(case.get("collect"))]
     return None
 
 
@@ -535,6 +632,9 @@ def describe(case, impl_obs):
     d = G.describe_case(case, impl_obs if not isinstance(impl_obs, dict) else ["histogram"])
     if isinstance(impl_obs, dict):
         d["rng_outcomes_enumerated"] = impl_obs["leaves"]
+        if case.get("collect"):
+            d["ensemble"] = "collected from ONE generator object, tabulated after the last draw"
+            d["kept_results_changed_later"] = impl_obs.get("changed_later")
         d["distinct_placements"] = len(impl_obs["hist"])
         d["histogram_head"] = impl_obs["hist"][:4]
     return d
